@@ -508,3 +508,56 @@ where
         (ev.into_inner(), vs)
     })
 }
+
+// ---------------------------------------------------------------------------------------------
+// running one case in a child process (for inputs that may kill the process: stack overflow, abort)
+// ---------------------------------------------------------------------------------------------
+#[derive(Debug)]
+pub enum ChildOutcome {
+    Ok,
+    Violation(String),
+    /// killed by a signal / aborted / unexpected status
+    Died(String),
+}
+pub fn run_case_in_child(ctx: &Ctx, case: &J, tag: &str) -> ChildOutcome {
+    use std::os::unix::process::ExitStatusExt;
+    let dir = ctx.verif_dir.join(".work").join("child");
+    let _ = std::fs::create_dir_all(&dir);
+    let file = dir.join(format!("{}-{}-{}-{}.json", ctx.prop, ctx.profile, std::process::id(), tag));
+    let doc = json!({"property": ctx.prop, "case": case});
+    if std::fs::write(&file, serde_json::to_string(&doc).unwrap()).is_err() {
+        return ChildOutcome::Died("cannot write the case file".into());
+    }
+    let exe = match std::env::current_exe() {
+        Ok(e) => e,
+        Err(e) => return ChildOutcome::Died(format!("current_exe: {}", e)),
+    };
+    let out = std::process::Command::new(exe)
+        .arg(&ctx.prop)
+        .arg("--tier")
+        .arg(ctx.tier.name())
+        .arg("--profile")
+        .arg(&ctx.profile)
+        .arg("--replay")
+        .arg(&file)
+        .env("VERIF_CHILD", "1")
+        .output();
+    let r = match out {
+        Err(e) => ChildOutcome::Died(format!("cannot start child: {}", e)),
+        Ok(o) => {
+            let text = format!("{}{}", String::from_utf8_lossy(&o.stdout), String::from_utf8_lossy(&o.stderr));
+            if let Some(sig) = o.status.signal() {
+                ChildOutcome::Died(format!("killed by signal {} ({})", sig, text.lines().rev().find(|l| !l.trim().is_empty()).unwrap_or("").chars().take(160).collect::<String>()))
+            } else {
+                match o.status.code() {
+                    Some(0) => ChildOutcome::Ok,
+                    Some(1) => ChildOutcome::Violation(text.lines().find(|l| l.starts_with("violation")).unwrap_or("violation in child").chars().take(300).collect()),
+                    Some(c) => ChildOutcome::Died(format!("exit status {} ({})", c, text.lines().rev().find(|l| !l.trim().is_empty()).unwrap_or("").chars().take(160).collect::<String>())),
+                    None => ChildOutcome::Died("no exit status".into()),
+                }
+            }
+        }
+    };
+    let _ = std::fs::remove_file(&file);
+    r
+}
